@@ -667,7 +667,7 @@ func main() {
 	nTB, nExact, nStarve, nMgr, nKern, maxPk := 120, 60, 4, 80, 40, 30
 	starveN := uint64(3000)
 	if cfg.Thorough() {
-		nTB, nExact, nStarve, nMgr, nKern, maxPk = 1500, 600, 20, 800, 400, 60
+		nTB, nExact, nStarve, nMgr, nKern, maxPk = 800, 300, 12, 500, 250, 60
 		starveN = 20000
 	}
 	var tbs, exact, starve, mgrs, kern []Case
